@@ -22,6 +22,7 @@ normally; after every step
 import io
 import re
 import random
+import zlib
 
 from ..core import new_result, violation, Log, digest, HarnessError
 from .. import shrink
@@ -49,7 +50,9 @@ COMPONENTS = {
     'stubbed': [],
 }
 ASSUMPTIONS = [
-    'prefix-wildcard removal is generated only when no hook lies at or under the prefix (the statement leaves that open)',
+    'prefix-wildcard removal over hooks (which the statement leaves open): in 40 % of the seeded runs it is generated only when no '
+    'hook lies at or under the prefix; in the others and in the sweeps the application settles every such hook itself right '
+    'after the removal (installs it again or removes it explicitly), nothing is compared in between, everything afterwards',
     'whether an edit is accepted is never predicted by the model, only compared with a freshly built router',
     'on a 404 only what Ombott.handler consumes is compared (innermost partial hook, its position, parameter values)',
 ]
@@ -181,7 +184,7 @@ def gen_case(rng, tier):
     ops = [gen_op(rng, rules, hook_rules, names, weights) for _ in range(n)]
     if rng.random() < 0.08 and len(ops) > 2:
         ops.insert(rng.randrange(1, len(ops)), ['churn'])
-    return {'ops': ops, 'wsgi_every': rng.choice([0, 1, 1, 3])}
+    return {'ops': ops, 'wsgi_every': rng.choice([0, 1, 1, 3]), 'over_hooks': rng.random() < 0.6}
 
 
 SWEEP_ALPHABET = [
@@ -225,11 +228,11 @@ def expand_unit(u):
     first = SWEEP_ALPHABET[u['first']]
     if u['depth'] == 2:
         for b in SWEEP_ALPHABET:
-            yield {'ops': pre + [first, b], 'wsgi_every': 1}
+            yield {'ops': pre + [first, b], 'wsgi_every': 1, 'over_hooks': True}
     else:
         second = SWEEP_ALPHABET[u['second']]
         for c in SWEEP_ALPHABET:
-            yield {'ops': pre + [first, second, c], 'wsgi_every': 0}
+            yield {'ops': pre + [first, second, c], 'wsgi_every': 0, 'over_hooks': True}
 
 
 def summarise(case):
@@ -515,7 +518,12 @@ def run_case(case):
     wsgi_every = case.get('wsgi_every', 0)
     n_rejected = n_removed = 0
     use_cache = True
-    for step, op in enumerate(ops):
+    over_hooks = case.get('over_hooks', False)
+    from collections import deque
+    queue = deque((i, op, None) for i, op in enumerate(ops))
+    unresolved = 0      # hooks below a removed prefix whose state is unspecified until the application re-defines them
+    while queue:
+        step, op, resolving = queue.popleft()
         kind = op[0]
         if kind == 'churn':
             churn_filters()
@@ -531,14 +539,26 @@ def run_case(case):
                           f'test answers differently: {d}')
                 break
             continue
+        below = []
         if kind == 'rm_prefix' and model.hook_blocks_prefix(op[1]):
-            log(step, 'skip', op)
-            res['probes']['skipped:prefix-over-hook'] += 1
-            continue
+            if not over_hooks:
+                log(step, 'skip', op)
+                res['probes']['skipped:prefix-over-hook'] += 1
+                continue
+            # "prefix-wildcard removal is specified for routes only": what becomes of the hooks below the prefix is
+            # unspecified, so the application says so itself - right after the removal it installs each of them
+            # again or removes it explicitly (which of the two is a pure function of the hook and the step); nothing
+            # is compared until the last of them is settled, everything afterwards
+            pre = pattern_of(op[1])[:-1]
+            below = sorted((hp, v) for hp, v in model.hooks.items() if hp.startswith(pre))
+            res['probes']['prefix-removed-over-hooks'] += 1
         prev_model = model.copy()
         exc = apply_real(app, op)
         # the same edit on an application freshly built from the previous state
-        outcome_twin = twin_outcome(prev_model, rules, op, use_cache)
+        if resolving == 'unhook':
+            outcome_twin = 'ok' if exc is None else type(exc).__name__      # unspecified state: any answer is fine
+        else:
+            outcome_twin = twin_outcome(prev_model, rules, op, use_cache)
         outcome = 'ok' if exc is None else type(exc).__name__
         log(step, op, outcome)
         res['probes']['op:' + kind + (':rejected' if exc else '')] += 1
@@ -547,6 +567,22 @@ def run_case(case):
         else:
             n_rejected += 1
             res['fired']['rejected:' + type(exc).__name__] += 1
+        if resolving:
+            unresolved -= 1
+        if below and exc is None:
+            for hp, (hrule, hidx) in reversed(below):
+                del model.hooks[hp]
+                again = zlib.crc32(f'{hp}|{step}'.encode()) % 3 != 0
+                queue.appendleft((step, ['hook', hrule, hidx] if again else ['unhook', hrule], 'hook' if again else 'unhook'))
+                unresolved += 1
+        if unresolved:
+            if outcome != outcome_twin:
+                violation(res, f'C11:acceptance-differs:{kind}',
+                          f'step {step} {op}: edited router -> {outcome}, router freshly built from the same surviving '
+                          f'routes/hooks -> {outcome_twin}')
+                break
+            prev_obs = observe(app, rules, hook_rules, NAMES)
+            continue
         if outcome != outcome_twin:
             violation(res, f'C11:acceptance-differs:{kind}',
                       f'step {step} {op}: edited router -> {outcome}, router freshly built from the same surviving '
@@ -608,7 +644,7 @@ def run_case(case):
 def shrink_candidates(case):
     ops = case['ops']
     for o in shrink.list_cands(ops, 1):
-        yield {'ops': o, 'wsgi_every': case.get('wsgi_every', 0)}
+        yield {'ops': o, 'wsgi_every': case.get('wsgi_every', 0), 'over_hooks': case.get('over_hooks', False)}
     for i, op in enumerate(ops):
         if op[0] == 'add':
             simpler = []
@@ -621,6 +657,7 @@ def shrink_candidates(case):
             if op[3] != 0:
                 simpler.append(op[:3] + [0] + op[4:])
             for s in simpler:
-                yield {'ops': ops[:i] + [s] + ops[i + 1:], 'wsgi_every': case.get('wsgi_every', 0)}
+                yield {'ops': ops[:i] + [s] + ops[i + 1:], 'wsgi_every': case.get('wsgi_every', 0),
+                       'over_hooks': case.get('over_hooks', False)}
     if case.get('wsgi_every', 0) not in (0, 1):
-        yield {'ops': ops, 'wsgi_every': 1}
+        yield {'ops': ops, 'wsgi_every': 1, 'over_hooks': case.get('over_hooks', False)}
